@@ -353,7 +353,7 @@ Qed.
 
 Lemma Inv_create : forall st p mt s po tm tag, Inv st -> Inv (create st p mt s po tm tag).
 Proof.
-  intros st p mt s po tm tag HI. unfold create. apply Inv_enable.
+  intros st p mt s po tm tag HI. unfold create. destruct p as [| c0 p0]; [assumption|]. apply Inv_enable.
   match goal with |- Inv {| resps := resps st ++ [?r0]; act_exact := _; act_match := _; cmdp := _ |} => set (r := r0) end.
   assert (Hsame : forall j, (j < length (resps st))%nat -> nth_error (resps st ++ [r]) j = nth_error (resps st) j).
   { intros j Hj. apply nth_error_app1. assumption. }
@@ -851,12 +851,10 @@ Proof. intros st id f [H1 H2]. split; [apply Inv_set_func | apply funcs_ok_set_f
 
 Lemma Inv2_create : forall st p mt s po tm tag, Inv2 st -> Inv2 (create st p mt s po tm tag).
 Proof.
-  intros st p mt s po tm tag [HI HF]. unfold create.
+  intros st p mt s po tm tag [HI HF]. unfold create. destruct p as [| c0 p0]; [split; assumption|].
   match goal with |- Inv2 (enable ?s0 ?i0) => set (st0 := s0) end.
   assert (HI0 : Inv st0).
-  { pose proof (Inv_create st p mt s po tm tag HI) as H. unfold create in H. fold st0 in H.
-    (* Inv st0 was an intermediate step of Inv_create; re-derive it *)
-    clear H. unfold st0.
+  { unfold st0.
     match goal with |- Inv {| resps := resps st ++ [?r0]; act_exact := _; act_match := _; cmdp := _ |} => set (r := r0) end.
     assert (Hsame : forall j, (j < length (resps st))%nat -> nth_error (resps st ++ [r]) j = nth_error (resps st) j)
       by (intros j Hj; apply nth_error_app1; assumption).
